@@ -65,6 +65,12 @@ def configs(tier):
             out.append(dict(kind="sort-key", n=n, keydt=keydt, nvec=3))
         for perm in itertools.permutations(range(n)):
             out.append(dict(kind="sort-index", n=n, perm=list(perm)))
+    # members that share objects (a Vector component also stored on its own, one Array under two names) and a sort
+    # key that is itself a member, given by name / as an integer Array / as an ndarray
+    for n in (2, 3):
+        for share in ("component", "two-names", "none"):
+            for keyform in ("name", "int-array-member", "ndarray"):
+                out.append(dict(kind="sort-shared", n=n, share=share, keyform=keyform))
     out.append(dict(kind="sort-index", n=3, perm=[0, 0, 1, 2]))      # other length: must not leave a torn group
     out.append(dict(kind="sort-index", n=3, perm=[2, 0]))
     for n0 in ((), 1, 2, 3):
@@ -178,6 +184,49 @@ def body(m, cfg):
             m.require(len(got) == n and all(_same_row(m, g, src[k][p]) for g, p in zip(got, perm)),
                       f"member {k} underwent the same permutation", key=f"aligned:{tag}:{k}")
             m.require(str(dg[k].unit) == units[k] and dg[k].name == k, "unit and name preserved", key=f"unit:{tag}:{k}")
+        return
+    if kind == "sort-shared":
+        n, share, keyform = cfg["n"], cfg["share"], cfg["keyform"]
+        tag = f"sortby-shared:{share}:{keyform}"
+        dg = _mk_group(m, n, 3)
+        dg["k"] = Array(m.array("k", (n,), "float64"), unit="s")
+        if share == "component":
+            dg["vx_alone"] = dg["v"].x
+        elif share == "two-names":
+            dg["a_again"] = dg["a"]
+        src = {k: _rows(m, dg[k]) for k in dg.keys()}
+        names_before = list(dg.keys())
+        if keyform == "name":
+            key = "k"
+            order_src = None
+        else:
+            # an explicit permutation (reverse), as an integer Array that is itself a member, or as a plain ndarray
+            perm = list(range(n))[::-1]
+            if keyform == "int-array-member":
+                dg["order"] = Array(np.array(perm, dtype=int))
+                src["order"] = _rows(m, dg["order"])
+                names_before = list(dg.keys())
+                key = dg["order"]
+            else:
+                key = np.array(perm, dtype=int)
+        dg.sortby(key)
+        if keyform == "name":
+            kv = m.vals(dg["k"]._array)
+            m.check("key column is non-decreasing", m.And([m.le(kv[i], kv[i + 1]) for i in range(n - 1)]), key=f"order:{tag}")
+        # one permutation for every member: read it from member 'a' (distinct provenance symbols)
+        p_ = []
+        for row in _rows(m, dg["a"]):
+            hit = [j for j, s_ in enumerate(src["a"]) if _same_row(m, row, s_)]
+            p_.append(hit[0] if hit else None)
+        if not m.require(None not in p_ and sorted(p_) == list(range(n)), "rows of the result are a permutation of the source rows", key=f"perm:{tag}"):
+            return
+        if keyform != "name":
+            m.require(p_ == perm, "the index list given is the permutation applied", key=f"perm:{tag}")
+        m.require(list(dg.keys()) == names_before, "members kept", key=f"members:{tag}")
+        for k in dg.keys():
+            got = _rows(m, dg[k])
+            m.require(len(got) == n and all(_same_row(m, g, src[k][q]) for g, q in zip(got, p_)),
+                      f"member {k} underwent the same permutation (also when it shares its data with another member)", key=f"aligned:{tag}:{k}")
         return
     if kind == "sort-index":
         n, perm = cfg["n"], cfg["perm"]
